@@ -23,4 +23,42 @@ ReplaceInputs(inp, added, old, new) ==
 Renamed(inp, added, name, Sub(_)) ==
   LET C == Closure(inp, added, {}) IN
   [n \in DOMAIN name |-> IF n \in C /\ name[n] # "" THEN Sub(name[n]) ELSE name[n]]
+
+-----------------------------------------------------------------------------
+(* GraphBuilder.replace_var(old, new) (model.py:722-737).  Variables are     *)
+(* triples <<value node, proxy node, dist node or 0>>; `at[n]` is the node a *)
+(* distribution node is evaluated at (0 = none; not among `inp`).  The       *)
+(* builder's closure follows inputs, `at`, and - from any node of a variable *)
+(* - all nodes of that variable (_all_nodes_and_vars).                       *)
+VarNodes(v) == {v[1], v[2]} \cup (IF v[3] = 0 THEN {} ELSE {v[3]})
+Sib(vars, n) == UNION {VarNodes(vars[i]) : i \in {j \in 1..Len(vars) : n \in VarNodes(vars[j])}}
+RECURSIVE ClosureV(_, _, _, _, _)
+ClosureV(inp, at, vars, todo, seen) ==
+  IF todo = {} THEN seen
+  ELSE LET n == CHOOSE x \in todo : TRUE
+           nxt == SeqSet(inp[n]) \cup Sib(vars, n) \cup (IF at[n] = 0 THEN {} ELSE {at[n]})
+       IN ClosureV(inp, at, vars, (todo \ {n}) \cup (nxt \ (seen \cup {n})), seen \cup {n})
+Roots(added, vars, gbvars) == added \cup UNION {VarNodes(vars[i]) : i \in gbvars}
+
+\* one replace_node inside replace_var: <<inp', added'>>
+RepNode(inp, at, vars, added, gbvars, old, new) ==
+  LET a1 == ReplaceAdded(added, old, new)
+      C == ClosureV(inp, at, vars, Roots(a1, vars, gbvars), {})
+  IN <<[n \in DOMAIN inp |-> IF n \in C THEN [i \in 1..Len(inp[n]) |-> IF inp[n][i] = old THEN new ELSE inp[n][i]]
+                             ELSE inp[n]], a1>>
+
+\* result <<inp', added', gbvars', raised>> of replace_var(vars[o], vars[w]) as coded: the builder's list of
+\* variables first, then proxy, value node and - unless that raises - distribution node
+ReplaceVarRes(inp, at, vars, added, gbvars, o, w) ==
+  LET g1 == IF o \in gbvars THEN (gbvars \ {o}) \cup {w} ELSE gbvars
+      r1 == RepNode(inp, at, vars, added, g1, vars[o][2], vars[w][2])
+      r2 == RepNode(r1[1], at, vars, r1[2], g1, vars[o][1], vars[w][1])
+  IN IF vars[o][3] = 0 THEN <<r2[1], r2[2], g1, FALSE>>
+     ELSE IF vars[w][3] = 0 THEN <<r2[1], r2[2], g1, TRUE>>      \* raises half-way (as coded)
+     ELSE LET r3 == RepNode(r2[1], at, vars, r2[2], g1, vars[o][3], vars[w][3]) IN <<r3[1], r3[2], g1, FALSE>>
+
+\* intent: afterwards nothing the builder reaches - other than the old variable's own nodes - reads the old variable
+NoUserOfOldLeft(inp, at, vars, added, gbvars, o) ==
+  LET C == ClosureV(inp, at, vars, Roots(added, vars, gbvars), {}) IN
+  \A n \in C \ VarNodes(vars[o]) : SeqSet(inp[n]) \cap VarNodes(vars[o]) = {}
 =============================================================================
